@@ -44,7 +44,7 @@ def run(ctx):
     ctx.build()
     quick = ctx.tier == "quick"
     rng = random.Random(ctx.seed)
-    cfg = "CONSTANTS\n  Leaves = {1, 2}\n  MaxDepth = %d\nINIT Init\nNEXT Next\nINVARIANTS Inv_RoundTrip Inv_NoErr\nCHECK_DEADLOCK FALSE\n" % (2 if quick else 3)
+    cfg = "CONSTANTS\n  Leaves = %s\n  MaxDepth = 2\nINIT Init\nNEXT Next\nINVARIANTS Inv_RoundTrip Inv_NoErr\nCHECK_DEADLOCK FALSE\n" % ("{1}" if quick else "{1, 2}")
     _o, mcst = ctx.tlc("Expr", cfg_text=cfg, workers=8, name="mc:Expr grammar/renderer round trip", timeout=2400)
     trees = gen(ctx, "d1")
     d2 = gen(ctx, "d2")
@@ -122,6 +122,6 @@ def run(ctx):
            "rule": "TLC enumerates (Gen_Expr.tla) all trees of depth 1 and depth 2 (left- and right-deep)%s over literals %s and -%s and + - * / %% whose intermediate values fit int32%s; each tree is rendered with minimal parentheses, with redundant parentheses and with blanks around operators, "
                    "decimal/hex literal styles chosen by seed, and placed in DD, MOV EAX,imm, [BX+disp], RESB and EQU positions; the observed value must equal Eval(tree)" % (
                        " (quick: depth 2 sampled by seed)" if quick else "", LITS, NEG, "" if quick else "; depth 3 balanced trees over a reduced literal set sampled by seed"),
-           "model_checking": "Expr.tla: the grammar's AddExp/MultExp/PrimaryExp rules as a recursive-descent parser; Parse(Render(t)) = t for both rendering styles over all %d trees of depth <= %d" % (mcst["distinct"], 2 if quick else 3),
+           "model_checking": "Expr.tla: the grammar's AddExp/MultExp/PrimaryExp rules as a recursive-descent parser; Parse(Render(t)) = t for both rendering styles over all %d trees of depth <= 2 over %s" % (mcst["distinct"], "one leaf value" if quick else "two leaf values"),
            "samples": [R.cases[i]["src"] for i in (0, 1, 2)], "tlc_runs": ctx.tlc_stats[:5], "exhaustive": False}
     return report.finish(ctx, "C06", viol, known, other, R, cov, ASSUME)
